@@ -23,6 +23,8 @@ manifest = {
         "add_only": True,
     },
     "engines": [
+        {"name": "libFuzzer target parse_lower", "path": "fuzz", "serves_properties": ["C24"],
+         "kind_free_text": "cargo-fuzz crate (nightly): coverage-guided stage of `./check C24 thorough` (tools/fuzz_c24.sh) on the harness's own entry function props::c24::exercise; crashes are confirmed through `check C24 --replay` before they are reported"},
         {"name": "chalk-verif harness", "path": "harness", "serves_properties": sorted(CHECKS.keys()),
          "kind_free_text": "Rust crate: proptest-driven choice-tape generators, independent reference models (ground Horn evaluator, reference unifier, de-Bruijn calculus, variance walk, orphan rules, rule tables), differential/metamorphic drivers, fault-injecting database, shrinking + replay files, evidence writer"},
     ],
